@@ -444,3 +444,310 @@ def judge_steps(cfg, states):
                     bad.append("thread %d: results rewritten" % t)
         prev = st
     return bad
+
+
+# ------------------------------------------------------------------ generators
+def parse_tok(tok):
+    f = tok.split(":")
+    if f[0] == "S":
+        cases = []
+        if f[2] != "-":
+            for cs in f[2].split(","):
+                if cs[0] == "s":
+                    c, v = cs[1:].split("=")
+                    cases.append((int(c), True, int(v)))
+                else:
+                    cases.append((int(cs[1:]), False, 0))
+        return ("S", f[1] == "b", tuple(cases))
+    if tok[0] == "s":
+        return ("s", int(f[0][1:]), int(f[1]))
+    return (tok[0], int(tok[1:]))
+
+
+def rand_cfg(rng, nch, maxcap, nth, maxops, psel=0.3):
+    caps = [rng.randint(0, maxcap) for _ in range(nch)]
+    val = [1]
+
+    def nv():
+        val[0] += 1
+        return val[0]
+    progs = []
+    for t in range(nth):
+        ops = []
+        for k in range(rng.randint(1, maxops)):
+            r = rng.random()
+            c = rng.randrange(nch)
+            if r < 0.35 * (1 - psel) / 0.7:
+                ops.append(("s", c, nv()))
+            elif r < 0.62 * (1 - psel) / 0.7:
+                ops.append(("r", c))
+            elif r < 1 - psel:
+                ops.append(("c", c))
+            else:
+                ncase = rng.choice([0, 1, 1, 2, 2, 2, 3])
+                cases = []
+                for _ in range(ncase):
+                    snd = rng.random() < 0.5
+                    cases.append((rng.randrange(nch), snd, nv() if snd else 0))
+                ops.append(("S", rng.random() < 0.6, tuple(cases)))
+        progs.append(ops)
+    return (caps, progs)
+
+
+def systematic_cfgs():
+    """the core of the property's quantifier: k senders, m receivers, optional closer, cap 0..2, one channel;
+    plus select shapes on one and two channels"""
+    out = []
+    for cap in (0, 1, 2):
+        for ns, nr, per in ((1, 1, 2), (2, 1, 1), (1, 2, 1), (2, 2, 1), (1, 1, 3)):
+            v = [10]
+
+            def nv():
+                v[0] += 1
+                return v[0]
+            senders = [[("s", 0, nv()) for _ in range(per)] for _ in range(ns)]
+            total = ns * per
+            recvs = [[("r", 0)] * max(1, total // nr) for _ in range(nr)]
+            out.append(([cap], senders + recvs))
+            # the last sender closes, one receiver reads one more (drain + ok=false)
+            s2 = [list(p) for p in senders]
+            s2[-1].append(("c", 0))
+            r2 = [list(p) for p in recvs]
+            r2[0].append(("r", 0))
+            if ns == 1:
+                out.append(([cap], s2 + r2))
+        out.append(([cap], [[("S", True, ((0, True, 5),))], [("S", True, ((0, False, 0),))]]))
+        out.append(([cap], [[("S", False, ((0, True, 5),))], [("r", 0)]]))
+        out.append(([cap], [[("S", False, ((0, False, 0),))], [("s", 0, 5)]]))
+        out.append(([cap], [[("c", 0)], [("S", True, ((0, False, 0),))], [("r", 0)]]))
+    for c0, c1 in ((0, 0), (0, 1), (1, 1), (2, 0)):
+        out.append(([c0, c1], [[("S", True, ((0, False, 0), (1, False, 0)))], [("s", 0, 7)], [("s", 1, 8)]]))
+        out.append(([c0, c1], [[("S", True, ((0, True, 5), (1, False, 0)))], [("S", True, ((0, False, 0), (1, True, 6)))]]))
+        out.append(([c0, c1], [[("S", True, ((0, True, 5), (1, True, 6)))], [("r", 1)], [("r", 0)]]))
+    return out
+
+
+def random_script(rng, cfg, nsteps):
+    """random-priority schedule: `auto` steps under a priority order that changes now and then, spurious wake-ups"""
+    nth = len(cfg[1])
+    lines = cfg_lines(cfg)
+    order = list(range(nth))
+    rng.shuffle(order)
+    lines.append("prio " + ",".join(map(str, order)))
+    for i in range(nsteps):
+        r = rng.random()
+        if r < 0.12:
+            rng.shuffle(order)
+            lines.append("prio " + ",".join(map(str, order)))
+        elif r < 0.22:
+            lines.append("wake %d" % rng.randrange(nth))
+        lines.append("auto")
+    # drain: let everything runnable run, so that the last state is quiescent (or the thread set is still busy)
+    for i in range(6 * nth):
+        lines.append("auto")
+    return lines
+
+
+# ------------------------------------------------------------------ the check
+def build_real(ctx):
+    extra = {"zz_support.go": native.RT_SUPPORT, "zz_c10.go": open(os.path.join(H, "rt_extra.go.txt")).read()}
+    return native.make_native(ctx, RT_FILES, extra, {"main.go": open(os.path.join(H, "main.go.txt")).read()}, name="native-c10")
+
+
+class Judge:
+    def __init__(self, ctx):
+        self.ctx = ctx
+        self.ref = Ref()
+        self.judged = set()
+        self.stats = {"final_states_judged": 0, "final_states_unjudged_reference_too_large": 0, "step_states_checked": 0,
+                      "spec_failures": 0, "by_class": {}}
+
+    def script(self, cfg, sched_lines_, out_lines):
+        """judge the REAL output of one script (config lines already stripped)"""
+        ctx = self.ctx
+        states = []
+        for k, line in enumerate(out_lines):
+            if line in ("ok", "bad-step"):
+                continue
+            st = parse_state(line)
+            if st is None:
+                continue            # a malformed line shows up as a correspondence mismatch
+            states.append(st)
+            if not st["R"]:
+                key = (cfg_str(cfg), line.split(" ", 1)[1] if line[0] in "ts" else line)
+                if key in self.judged:
+                    continue
+                self.judged.add(key)
+                v = judge_final(cfg, st, self.ref)
+                if self.ref.get(cfg) is None:
+                    self.stats["final_states_unjudged_reference_too_large"] += 1
+                    continue
+                self.stats["final_states_judged"] += 1
+                if v is not None:
+                    self.stats["spec_failures"] += 1
+                    keys, why = v
+                    replay = {"config": cfg_lines(cfg)[1:], "schedule": sched_lines_[:k + 1], "real_final_state": line, "why": why}
+                    if keys:
+                        for kk in keys:
+                            self.stats["by_class"][kk] = self.stats["by_class"].get(kk, 0) + 1
+                            ctx.report(kk, why, replay)
+                    else:
+                        self.stats["by_class"]["UNEXPLAINED"] = self.stats["by_class"].get("UNEXPLAINED", 0) + 1
+                        if len(ctx.violations) < 25:
+                            ctx.report("final-state-not-allowed-by-go: " + cfg_str(cfg) + " => " + key[1], why, replay)
+        self.stats["step_states_checked"] += len(states)
+        for b in judge_steps(cfg, states):
+            self.stats["spec_failures"] += 1
+            if len(ctx.violations) >= 25:
+                continue
+            ctx.report("safety: " + b + " in " + cfg_str(cfg), b,
+                       {"config": cfg_lines(cfg)[1:], "schedule": sched_lines_, "real": out_lines})
+
+
+def run_batch(ctx, real, modeld, jobs, judge, label):
+    """jobs: [(cfg, script lines incl. config lines)].  Runs real + model, diffs, judges the real output.
+    Returns list of mismatching jobs."""
+    scripts = [j[1] for j in jobs]
+    ro = run_scripts([real], scripts)
+    mo = run_scripts([modeld], scripts)
+    mism = []
+    for (cfg, sc), r, m in zip(jobs, ro, mo):
+        nb = len(cfg_lines(cfg))
+        if r != m:
+            mism.append((cfg, sc[nb:], r[nb:], m[nb:]))
+        judge.script(cfg, sc[nb:], r[nb:])
+    ctx.log("%s: %d scripts, %d lines, %d real/model mismatches" % (label, len(scripts), sum(map(len, scripts)), len(mism)))
+    return mism
+
+
+def run(ctx, args):
+    rng = ctx.rng
+    quick = ctx.tier == "quick"
+    st = lean_check(ctx, ["LlgoVerif.Props.C10"], ["LlgoVerif/Props/C10.lean"],
+                    extra_files=["LlgoVerif/Model/Chan.lean", "LlgoVerif/Lemmas/Chan.lean", "LlgoVerif/Lemmas/ChanThreads.lean"],
+                    leanchecker=(ctx.tier == "thorough"))
+    modeld = build_driver(ctx, "modeld_c10")
+    real = build_real(ctx)
+    ctx.log("built: Lean modules, modeld_c10, native copy of z_chan.go under the psync scheduler")
+    judge = Judge(ctx)
+    mismatches = []
+    dist = {"configs_exhaustive": 0, "configs_random_schedules": 0, "model_states": 0, "model_transitions": 0,
+            "truncated_explorations": 0, "threads": {}, "caps": {}, "ops": {}}
+
+    def count_cfg(cfg):
+        caps, progs = cfg
+        dist["threads"][len(progs)] = dist["threads"].get(len(progs), 0) + 1
+        for c in caps:
+            dist["caps"][c] = dist["caps"].get(c, 0) + 1
+        for p in progs:
+            for op in p:
+                k = op[0] if op[0] != "S" else ("S-blocking" if op[1] else "S-default")
+                dist["ops"][k] = dist["ops"].get(k, 0) + 1
+
+    if getattr(args, "replay", None):
+        rp = json.load(open(args.replay))["replay"]
+        cfg = ([int(l.split()[1]) for l in rp["config"] if l.startswith("chan")],
+               [[parse_tok(t) for t in l.split()[1:]] for l in rp["config"] if l.startswith("thread")])
+        jobs = [(cfg, cfg_lines(cfg) + rp["schedule"])]
+        mismatches += run_batch(ctx, real, modeld, jobs, judge, "replay")
+        for l in run_scripts([real], [jobs[0][1]])[0]:
+            print("  real:", l)
+        return ctx.finish("proof", {"evaluations": len(jobs[0][1]), "distinct_nontrivial": 1, "rule": "replay of one stored schedule",
+                                   "input_distribution": {}, "samples": [rp]})
+
+    # 1. corpus (includes the witnesses of the Lean counterexample theorems)
+    corpus = json.load(open(os.path.join(VERIF, "corpus", "C10", "schedules.json")))
+    jobs = []
+    for e in corpus:
+        cfg = (e["caps"], [[parse_tok(t) for t in th.split()] for th in e["threads"]])
+        jobs.append((cfg, cfg_lines(cfg) + sched_lines(e["sched"])))
+        count_cfg(cfg)
+    ro = run_scripts([real], [j[1] for j in jobs])
+    # the two Lean witnesses must reproduce on the real code exactly as the theorems state them
+    w_stall = parse_state(ro[0][-1])
+    w_loss = parse_state(ro[1][-1])
+    ctx.coverage["lean_witnesses_on_real_code"] = {
+        "no_stuck_pair_counterexample": ro[0][-1], "no_loss_counterexample": ro[1][-1]}
+    if not (w_stall and not w_stall["R"] and w_stall["W"] == [0, 1] and w_stall["threads"][2] == (True, ("S",)) and w_stall["pend"][0] == [(0, 42)]):
+        ctx.log("note: the real code no longer shows the stall of no_stuck_pair_counterexample:", ro[0][-1])
+    if not (w_loss and w_loss["threads"][0] == (True, ("R42/0",))):
+        ctx.log("note: the real code no longer shows the loss of no_loss_counterexample:", ro[1][-1])
+    mismatches += run_batch(ctx, real, modeld, jobs, judge, "corpus")
+
+    # 2. exhaustive exploration of small configurations: every transition of the model's state graph is replayed
+    cfgs = systematic_cfgs()
+    n_rand = 40 if quick else 600
+    for i in range(n_rand):
+        k = i % 4
+        if k == 0:
+            cfgs.append(rand_cfg(rng, 1, 2, rng.randint(2, 3), 2))
+        elif k == 1:
+            cfgs.append(rand_cfg(rng, rng.randint(1, 2), 2, rng.randint(2, 3), 2))
+        elif k == 2:
+            cfgs.append(rand_cfg(rng, rng.randint(1, 2), 2, 2, 3))
+        else:
+            cfgs.append(rand_cfg(rng, rng.randint(1, 3), 2, rng.randint(2, 4) if not quick else 3, 2 if quick else 3))
+    max_states = 1200 if quick else 20000
+    ex = model_explore(modeld, cfgs, max_states, True)
+    jobs = []
+    budget = 450000 if quick else 30000000      # script lines
+    used = 0
+    for cfg, (stats, scheds) in zip(cfgs, ex):
+        base = cfg_lines(cfg)
+        cost = sum(len(base) + s.count(",") + 1 for s in scheds)
+        if used + cost > budget:
+            continue
+        used += cost
+        count_cfg(cfg)
+        dist["configs_exhaustive"] += 1
+        dist["model_states"] += stats["states"]
+        dist["model_transitions"] += stats["trans"]
+        dist["truncated_explorations"] += stats["trunc"]
+        for s in scheds:
+            jobs.append((cfg, base + sched_lines(s)))
+    mismatches += run_batch(ctx, real, modeld, jobs, judge, "exhaustive small configurations")
+    n_scripts = len(jobs)
+    n_lines = sum(len(j[1]) for j in jobs)
+    sample_job = jobs[len(jobs) // 2] if jobs else None
+
+    # 3. random-priority schedules on larger configurations
+    jobs = []
+    n_big = 150 if quick else 6000
+    for i in range(n_big):
+        cfg = rand_cfg(rng, rng.randint(1, 3), 2, rng.randint(3, 4), 4, psel=0.25)
+        count_cfg(cfg)
+        dist["configs_random_schedules"] += 1
+        for rep in range(3):
+            jobs.append((cfg, random_script(rng, cfg, 60)))
+    mismatches += run_batch(ctx, real, modeld, jobs, judge, "random-priority schedules")
+    n_scripts += len(jobs)
+    n_lines += sum(len(j[1]) for j in jobs)
+
+    # verdict on the correspondence
+    if mismatches:
+        cfg, sc, r, m = mismatches[0]
+        first = next(((a, b) for a, b in zip(r, m) if a != b), (r[-1:] , m[-1:]))
+        ctx.log("correspondence: %d scripts differ; first: %s | %s\n  real : %s\n  model: %s" % (len(mismatches), cfg_str(cfg), " ".join(sc)[:300], first[0], first[1]))
+        ctx.broken.append("correspondence real z_chan.go vs Lean model: %d scripts differ" % len(mismatches))
+        if not ctx.violations:
+            ctx.report_broken("correspondence C10 real-vs-model",
+                              {"config": cfg_lines(cfg)[1:], "schedule": sc, "real": r[-3:], "model": m[-3:], "count": len(mismatches)})
+    for name, s in st.items():
+        if s != "ok":
+            ctx.log("theorem", name, s)
+    if any(s != "ok" for s in st.values()) and not ctx.violations:
+        ctx.report_broken("Props/C10: " + ", ".join(n for n, s in st.items() if s != "ok"), st)
+
+    ctx.coverage["samples"] = [corpus[0], {"config": cfg_lines(sample_job[0])[1:], "schedule": sample_job[1][len(cfg_lines(sample_job[0])):]} if sample_job else None]
+    ctx.coverage["judge"] = judge.stats
+    ctx.coverage["trusted_base"] += [
+        "hand-written Lean model of z_chan.go tied by differential run: same schedule lines through the real code (native copy, psync scheduler stand-in) and modeld_c10, observable state diffed after every step",
+        "psync scheduler stand-in (mutex / condition variable semantics with spurious wake-ups), harness/c10/main.go.txt, the Python reference of Go's channel semantics (go_outcomes) that judges the real final states",
+        "exhaustive part = every transition of the MODEL's reachable state graph (deduplicated by model state) replayed on the real code; not every interleaving is replayed separately",
+    ]
+    ctx.assumptions += ["sends/selsends counters do not overflow uint16 (fewer than 65536 blocked senders)",
+                        "no nil channels; element type int64 (eltSize 8)"]
+    return ctx.finish("proof", {
+        "evaluations": n_lines, "distinct_nontrivial": n_scripts,
+        "rule": "evaluations = protocol lines (scheduler choices incl. configuration lines) executed by the REAL code and the model; distinct_nontrivial = distinct schedules (scripts); exhaustive scripts cover every transition of the model state graph of each small configuration",
+        "input_distribution": dist, "correspondence_mismatches": len(mismatches)})
